@@ -206,3 +206,385 @@ Proof.
   rewrite run_history_app, Ep. simpl. rewrite E1.
   rewrite run_history_app, H. simpl. rewrite R. reflexivity.
 Qed.
+
+(* ------------------------------------------------------------------ dispatch: flags and check_all_set *)
+
+Lemma run_dact_flags_mono : forall r s a s', run_dact r s a = Ok s' -> forall f, In f (flags s) -> In f (flags s').
+Proof.
+  intros r s a s' H f Hf. destruct a; simpl in H.
+  - eapply exec_stmt_flags_mono; eauto.
+  - unfold apply_setter in H. destruct (find_setter name); [|discriminate]. eapply exec_body_flags_mono; eauto.
+  - destruct r; inversion H; subst; exact Hf.
+  - discriminate.
+Qed.
+
+Lemma run_dacts_flags_mono : forall r l s s', run_dacts r s l = Ok s' -> forall f, In f (flags s) -> In f (flags s').
+Proof.
+  induction l as [|a l IH]; simpl; intros s s' H f Hf.
+  - inversion H; subst; exact Hf.
+  - destruct (run_dact r s a) eqn:E; [|discriminate]. eapply IH; [exact H|]. eapply run_dact_flags_mono; eauto.
+Qed.
+
+Lemma run_step_flags_mono : forall o r s st s', run_step o r s st = Ok s' -> forall f, In f (flags s) -> In f (flags s').
+Proof.
+  intros o r s st s' H f Hf. destruct st; simpl in H.
+  - destruct (lookup optkey o); [|discriminate]. destruct (find_branch o0 branches); [|discriminate].
+    eapply run_dacts_flags_mono; eauto.
+  - destruct (lookup optkey o); [|discriminate]. rewrite (write_consts_flags _ _ _ _ _ H); exact Hf.
+Qed.
+
+Definition body_sets (f : string) (b : list stmt) : bool :=
+  existsb (fun st => match st with SSetFlag g => String.eqb g f | _ => false end) b.
+Definition dact_sets (f : string) (a : dact) : bool :=
+  match a with
+  | DCall n => match find_setter n with Some x => body_sets f (s_body x) | None => true end
+  | DExit => true
+  | _ => false
+  end.
+Definition branch_sets (f : string) (acts : list dact) : bool := existsb (dact_sets f) acts.
+Definition step_sets (f : string) (st : dstep) : bool :=
+  match st with
+  | DChain _ brs => forallb (fun br => branch_sets f (snd br)) brs
+  | _ => false
+  end.
+Definition all_covered : bool := forallb (fun f => existsb (step_sets f) dispatch_steps) check_flags.
+
+Lemma all_covered_ok : all_covered = true.
+Proof. vm_compute. reflexivity. Qed.
+
+Lemma body_sets_In : forall f b, body_sets f b = true -> In (SSetFlag f) b.
+Proof.
+  intros f b H. unfold body_sets in H. apply existsb_exists in H. destruct H as (st & Hin & Hst).
+  destruct st; try discriminate. apply String.eqb_eq in Hst; subst; exact Hin.
+Qed.
+
+Lemma run_dacts_sets : forall r f l s s', branch_sets f l = true -> run_dacts r s l = Ok s' -> In f (flags s').
+Proof.
+  induction l as [|a l IH]; simpl; intros s s' Hb H; [discriminate|].
+  destruct (run_dact r s a) as [s1|] eqn:E; [|discriminate].
+  destruct (dact_sets f a) eqn:Da.
+  - destruct a; simpl in Da; simpl in E; try discriminate.
+    unfold apply_setter in E. destruct (find_setter name) as [x|]; [|discriminate].
+    eapply run_dacts_flags_mono; [exact H|]. eapply exec_body_sets; [apply body_sets_In; exact Da|exact E].
+  - simpl in Hb. eapply IH; eauto.
+Qed.
+
+Lemma find_branch_In : forall v brs acts, find_branch v brs = Some acts -> exists lit, In (lit, acts) brs /\ optv_is_str v lit = true.
+Proof.
+  intros v brs acts H. unfold find_branch in H.
+  destruct (find (fun br => optv_is_str v (fst br)) brs) as [[lit a]|] eqn:E; [|discriminate].
+  inversion H; subst. apply find_some in E. destruct E as [E1 E2]. exists lit; split; assumption.
+Qed.
+
+Lemma run_step_sets : forall o r f st s s', step_sets f st = true -> run_step o r s st = Ok s' -> In f (flags s').
+Proof.
+  intros o r f st s s' Hs H. destruct st; simpl in Hs; [|discriminate]. simpl in H.
+  destruct (lookup optkey o) as [v|]; [|discriminate].
+  destruct (find_branch v branches) as [acts|] eqn:E; [|discriminate].
+  destruct (find_branch_In _ _ _ E) as (lit & Hin & _).
+  rewrite forallb_forall in Hs. specialize (Hs _ Hin). simpl in Hs. eapply run_dacts_sets; eauto.
+Qed.
+
+Lemma run_steps_flags_mono : forall o r l s s', run_steps o r s l = Ok s' -> forall f, In f (flags s) -> In f (flags s').
+Proof.
+  induction l as [|st l IH]; simpl; intros s s' H f Hf.
+  - inversion H; subst; exact Hf.
+  - destruct (run_step o r s st) eqn:E; [|discriminate]. eapply IH; [exact H|]. eapply run_step_flags_mono; eauto.
+Qed.
+
+Lemma run_steps_sets : forall o r f l s s', existsb (step_sets f) l = true -> run_steps o r s l = Ok s' -> In f (flags s').
+Proof.
+  induction l as [|st l IH]; simpl; intros s s' Hb H; [discriminate|].
+  destruct (run_step o r s st) as [s1|] eqn:E; [|discriminate].
+  destruct (step_sets f st) eqn:Ds.
+  - eapply run_steps_flags_mono; [exact H|]. eapply run_step_sets; eauto.
+  - simpl in Hb. eapply IH; eauto.
+Qed.
+
+(* overrides never touch flags *)
+Lemma ov_substr_flags : forall pat suf i o s s', ov_substr pat suf i o s = Ok s' -> flags s' = flags s.
+Proof.
+  induction o as [|[k v] t IH]; simpl; intros s s' H.
+  - inversion H; reflexivity.
+  - destruct (contains pat k); [|apply IH; exact H].
+    destruct (if i then to_int v else to_float v) as [x|]; [|discriminate].
+    rewrite (IH _ _ H). reflexivity.
+Qed.
+
+Lemma mul_key_flags : forall m k s s', mul_key m k s = Ok s' -> flags s' = flags s.
+Proof.
+  intros m k s s'; unfold mul_key. destruct (lookup k (consts s)) as [[]|]; intro H; inversion H; reflexivity.
+Qed.
+Lemma mul_keys_flags : forall m ks s s', mul_keys m ks s = Ok s' -> flags s' = flags s.
+Proof.
+  induction ks as [|k t IH]; simpl; intros s s' H; [inversion H; reflexivity|].
+  destruct (mul_key m k s) eqn:E; [|discriminate]. rewrite (IH _ _ H). eapply mul_key_flags; eauto.
+Qed.
+Lemma mul_keys_try_flags : forall m ks s, flags (mul_keys_try m ks s) = flags s.
+Proof.
+  induction ks as [|k t IH]; simpl; intros s; [reflexivity|].
+  destruct (mul_key m k s) eqn:E; [|reflexivity]. rewrite IH. eapply mul_key_flags; eauto.
+Qed.
+
+Lemma run_ovr_flags : forall o s ov s', run_ovr o s ov = Ok s' -> flags s' = flags s.
+Proof.
+  intros o s ov s' H. destruct ov; cbn [run_ovr] in H.
+  - eapply ov_substr_flags; eauto.
+  - destruct (lookup key o); [|inversion H; reflexivity].
+    destruct (to_float o0); [|discriminate].
+    destruct (write_consts "" key (VNum q) s) eqn:E; [|discriminate].
+    destruct (in_range lo q hi); [|discriminate]. inversion H; subst. eapply write_consts_flags; eauto.
+  - destruct (lookup optkey o); [|inversion H; reflexivity].
+    destruct (to_float o0); [|discriminate].
+    destruct (in_range lo q hi); [|discriminate].
+    destruct (mul_keys q keys s) eqn:E; [|discriminate]. inversion H; subst.
+    rewrite mul_keys_try_flags. eapply mul_keys_flags; eauto.
+Qed.
+
+Lemma run_ovrs_flags : forall o l s s', run_ovrs o s l = Ok s' -> flags s' = flags s.
+Proof.
+  induction l as [|ov l IH]; simpl; intros s s' H; [inversion H; reflexivity|].
+  destruct (run_ovr o s ov) eqn:E; [|discriminate]. rewrite (IH _ _ H). eapply run_ovr_flags; eauto.
+Qed.
+
+Lemma dispatch_all_set : forall opts r s, dispatch opts r = DOk s -> check_all_set s = true.
+Proof.
+  intros opts r s H. unfold dispatch in H.
+  destruct (negb (forallb (fun k => has_key k opts) required_keys)); [discriminate|].
+  destruct (iso3_of r); [|discriminate].
+  destruct (alter failing_scenarios opts v) as [o'|]; [|discriminate].
+  destruct (run_steps o' r init_state dispatch_steps) as [s1|] eqn:E1; [|discriminate].
+  destruct (run_ovrs o' s1 overrides) as [s2|] eqn:E2; [|discriminate].
+  inversion H; subst s2. unfold check_all_set. apply forallb_forall. intros f Hf.
+  apply str_mem_In. rewrite (run_ovrs_flags _ _ _ _ E2).
+  pose proof all_covered_ok as C. unfold all_covered in C. rewrite forallb_forall in C.
+  eapply run_steps_sets; [apply C; exact Hf|exact E1].
+Qed.
+
+Lemma check_all_set_iff : forall s, check_all_set s = true <-> (forall f, In f check_flags -> In f (flags s)).
+Proof.
+  intro s. unfold check_all_set. rewrite forallb_forall. split; intros H f Hf.
+  - apply str_mem_In. apply H; exact Hf.
+  - apply str_mem_In. apply H; exact Hf.
+Qed.
+
+(* ------------------------------------------------------------------ dispatch: rejections *)
+
+Lemma missing_key_rejected : forall opts r k, In k required_keys -> lookup k opts = None -> dispatch opts r = DRej AssertRejected.
+Proof.
+  intros opts r k Hk Hl. unfold dispatch.
+  destruct (forallb (fun k0 => has_key k0 opts) required_keys) eqn:E; [|reflexivity].
+  rewrite forallb_forall in E. specialize (E k Hk). unfold has_key in E. rewrite Hl in E. discriminate.
+Qed.
+
+Definition no_branch (v : optv) (brs : list (string * list dact)) : Prop :=
+  forall lit acts, In (lit, acts) brs -> optv_is_str v lit = false.
+
+Lemma find_branch_none : forall v brs, no_branch v brs -> find_branch v brs = None.
+Proof.
+  intros v brs H. unfold find_branch.
+  destruct (find (fun br => optv_is_str v (fst br)) brs) as [[lit a]|] eqn:E; [|reflexivity].
+  apply find_some in E. destruct E as [E1 E2]. simpl in E2. rewrite (H _ _ E1) in E2. discriminate.
+Qed.
+
+Lemma run_steps_unknown : forall o r key brs v l s, In (DChain key brs) l -> lookup key o = Some v -> no_branch v brs ->
+  exists k s', run_steps o r s l = Rej k s'.
+Proof.
+  induction l as [|st l IH]; simpl; intros s Hin Hl Hn; [contradiction|].
+  destruct (run_step o r s st) as [s1|k s1] eqn:E.
+  - destruct Hin as [->|Hin].
+    + simpl in E. rewrite Hl, (find_branch_none _ _ Hn) in E. discriminate.
+    + eapply IH; eauto.
+  - exists k, s1; reflexivity.
+Qed.
+
+(* the correction applied by alter_scenario_if_known_to_fail only ever replaces a value that was itself one of
+   the literals of that option's chain (checked on the generated tables) *)
+Definition chain_lits (key : string) : list string :=
+  flat_map (fun st => match st with DChain k brs => if String.eqb k key then map fst brs else [] | _ => [] end) dispatch_steps.
+Definition failing_wf (f : failing) : bool :=
+  match lookup (fst (f_corr f)) (f_conds f) with
+  | Some vals => forallb (fun v => str_mem v (chain_lits (fst (f_corr f)))) vals
+  | None => false
+  end.
+Lemma failing_wf_ok : forallb failing_wf failing_scenarios = true.
+Proof. vm_compute. reflexivity. Qed.
+
+Lemma lookup_set_assoc_other : forall A k k' (v : A) d, k' <> k -> lookup k' (set_assoc k v d) = lookup k' d.
+Proof.
+  induction d as [|[a b] d IH]; simpl; intros Hne.
+  - destruct (String.eqb_spec k' k); [contradiction|reflexivity].
+  - destruct (String.eqb_spec k a) as [->|Hka]; simpl.
+    + destruct (String.eqb_spec k' a); [contradiction|reflexivity].
+    + destruct (String.eqb_spec k' a); [reflexivity|apply IH; exact Hne].
+Qed.
+
+Lemma alter_lookup : forall fs opts iso opts' key, alter fs opts iso = AOk opts' ->
+  lookup key opts' = lookup key opts \/
+  (exists f, In f fs /\ key = fst (f_corr f) /\ forallb (cond_matches opts) (f_conds f) = true).
+Proof.
+  induction fs as [|f fs IH]; simpl; intros opts iso opts' key H.
+  - inversion H; left; reflexivity.
+  - destruct (negb (forallb (fun c => has_key (fst c) opts) (f_conds f))); [discriminate|].
+    destruct (forallb (cond_matches opts) (f_conds f) && value_is_str iso (f_code f)) eqn:E.
+    + inversion H; subst. apply andb_true_iff in E. destruct E as [E _].
+      destruct (String.eqb_spec key (fst (f_corr f))) as [->|Hne].
+      * right. exists f; repeat split; [left; reflexivity|exact E].
+      * left. apply lookup_set_assoc_other; exact Hne.
+    + destruct (IH _ _ _ key H) as [L|(g & Hg & R)]; [left; exact L|right; exists g; split; [right; exact Hg|exact R]].
+Qed.
+
+Lemma lookup_In_fst : forall A k (d : list (string * A)) v, lookup k d = Some v -> In (k, v) d.
+Proof. intros; apply lookup_In; assumption. Qed.
+
+Lemma unknown_value_rejected : forall opts r key brs v,
+  In (DChain key brs) dispatch_steps -> lookup key opts = Some v ->
+  (forall lit, In lit (chain_lits key) -> optv_is_str v lit = false) ->
+  exists k, dispatch opts r = DRej k.
+Proof.
+  intros opts r key brs v Hin Hl Hno. unfold dispatch.
+  destruct (negb (forallb (fun k => has_key k opts) required_keys)); [eexists; reflexivity|].
+  destruct (iso3_of r) as [iso|]; [|eexists; reflexivity].
+  destruct (alter failing_scenarios opts iso) as [o'|] eqn:Ea; [|eexists; reflexivity].
+  assert (Hl' : lookup key o' = Some v).
+  { destruct (alter_lookup _ _ _ _ key Ea) as [L|(f & Hf & Hk & Hm)]; [rewrite L; exact Hl|].
+    exfalso. pose proof failing_wf_ok as W. rewrite forallb_forall in W. specialize (W f Hf). unfold failing_wf in W.
+    rewrite <- Hk in W. destruct (lookup key (f_conds f)) as [vals|] eqn:Ec; [|discriminate].
+    rewrite forallb_forall in Hm. specialize (Hm _ (lookup_In _ _ _ Ec)). unfold cond_matches in Hm. simpl in Hm.
+    rewrite Hl in Hm. apply existsb_exists in Hm. destruct Hm as (lit & Hlit & Hv).
+    rewrite forallb_forall in W. specialize (W lit Hlit). apply str_mem_In in W.
+    rewrite (Hno lit W) in Hv. discriminate. }
+  assert (Hn : no_branch v brs).
+  { intros lit acts Hb. apply Hno. unfold chain_lits. apply in_flat_map. exists (DChain key brs). split; [exact Hin|].
+    rewrite String.eqb_refl. apply in_map_iff. exists (lit, acts); split; [reflexivity|exact Hb]. }
+  destruct (run_steps_unknown o' r key brs v dispatch_steps init_state Hin Hl' Hn) as (k & s' & R).
+  rewrite R. eexists; reflexivity.
+Qed.
+
+(* ------------------------------------------------------------------ head-count key *)
+
+Lemma head_keys_ok : forallb (fun c => match head_column (head_const_key c) with Some c' => String.eqb c' c | None => false end)
+                             species_head_columns = true.
+Proof. vm_compute. reflexivity. Qed.
+
+Lemma head_key_species : forall c, In c species_head_columns -> head_column (head_const_key c) = Some c.
+Proof.
+  intros c Hc. pose proof head_keys_ok as H. rewrite forallb_forall in H. specialize (H c Hc).
+  destruct (head_column (head_const_key c)) as [c'|]; [|discriminate]. apply String.eqb_eq in H; subst; reflexivity.
+Qed.
+
+Lemma head_reach_ok : forallb (fun code => negb (str_mem code head_table_rows) ||
+                                           String.eqb (head_write_label code) (head_read_label code)) iso3_codes = true.
+Proof. vm_compute. reflexivity. Qed.
+
+Lemma head_reach_rows : forall code, In code iso3_codes -> In code head_table_rows ->
+  head_write_label code = head_read_label code.
+Proof.
+  intros code Hc Hr. pose proof head_reach_ok as H. rewrite forallb_forall in H. specialize (H code Hc).
+  apply str_mem_In in Hr. rewrite Hr in H. simpl in H. apply String.eqb_eq; exact H.
+Qed.
+
+(* ------------------------------------------------------------------ witness configurations (non-vacuity, accepted values) *)
+
+Fixpoint expr_cols (e : expr) : list string :=
+  match e with
+  | ERow c => [c]
+  | EAdd a b | ESub a b | EMul a b | EDiv a b | ERepeat a b => (expr_cols a ++ expr_cols b)%list
+  | EList l => (fix go (l : list expr) : list string := match l with [] => [] | x :: t => (expr_cols x ++ go t)%list end) l
+  | _ => []
+  end.
+Definition stmt_cols (st : stmt) : list string :=
+  match st with
+  | SWrite _ _ e | STWrite _ e | SAssertRange _ e _ => expr_cols e
+  | SWriteIfRowEq c _ _ _ e => c :: expr_cols e
+  | _ => []
+  end.
+(* a country row that has every column any setter reads: 1/12 everywhere (seasonality sums to one) *)
+Definition synthetic_row : dict :=
+  ("iso3", VStr "XXX") :: ("seaweed_growth_per_day_7", VNum (5 # 2)) ::
+  map (fun c => (c, VNum (1 # 12))) (flat_map (fun x => flat_map stmt_cols (s_body x)) setters).
+
+Definition base_global : options :=
+  [("scale", OStr "global"); ("NMONTHS", ONum 120); ("stored_food", OStr "baseline");
+   ("ratio_stocks_untouched", OStr "zero"); ("shutoff", OStr "continued"); ("waste", OStr "baseline_globally");
+   ("nutrition", OStr "catastrophe"); ("intake_constraints", OStr "enabled"); ("seasonality", OStr "baseline_globally");
+   ("grasses", OStr "global_nuclear_winter"); ("fish", OStr "nuclear_winter"); ("crop_disruption", OStr "global_nuclear_winter");
+   ("protein", OStr "not_required"); ("fat", OStr "not_required"); ("cull", OStr "do_eat_culled");
+   ("scenario", OStr "all_resilient_foods"); ("meat_strategy", OStr "reduce_breeding")].
+Definition base_country : options :=
+  [("scale", OStr "country"); ("NMONTHS", ONum 120); ("stored_food", OStr "baseline");
+   ("ratio_stocks_untouched", OStr "zero"); ("shutoff", OStr "long_delayed_shutoff"); ("waste", OStr "baseline_in_country");
+   ("nutrition", OStr "catastrophe"); ("intake_constraints", OStr "enabled"); ("seasonality", OStr "country");
+   ("grasses", OStr "country_nuclear_winter"); ("fish", OStr "nuclear_winter"); ("crop_disruption", OStr "country_nuclear_winter");
+   ("protein", OStr "not_required"); ("fat", OStr "not_required"); ("cull", OStr "do_eat_culled");
+   ("scenario", OStr "all_resilient_foods"); ("meat_strategy", OStr "reduce_breeding")].
+Definition witness_configs : list (options * row) :=
+  [(base_global, None); (base_country, Some synthetic_row)].
+
+Definition is_exit (a : dact) : bool := match a with DExit => true | _ => false end.
+Definition accepted_on (key v : string) (cfg : options * row) : bool :=
+  match dispatch (set_assoc key (OStr v) (fst cfg)) (snd cfg) with DOk _ => true | DRej _ => false end.
+Definition value_ok (key v : string) (acts : list dact) : bool :=
+  existsb is_exit acts || existsb (accepted_on key v) witness_configs.
+Definition all_values_ok : bool :=
+  forallb (fun st => match st with
+                     | DChain key brs => forallb (fun br => value_ok key (fst br) (snd br)) brs
+                     | _ => true
+                     end) dispatch_steps.
+Lemma all_values_ok_true : all_values_ok = true.
+Proof. vm_compute. reflexivity. Qed.
+
+Lemma values_accepted : forall key brs v acts, In (DChain key brs) dispatch_steps -> In (v, acts) brs ->
+  In DExit acts \/
+  exists cfg s, In cfg witness_configs /\ dispatch (set_assoc key (OStr v) (fst cfg)) (snd cfg) = DOk s.
+Proof.
+  intros key brs v acts Hs Hb. pose proof all_values_ok_true as H. unfold all_values_ok in H.
+  rewrite forallb_forall in H. specialize (H _ Hs). simpl in H.
+  rewrite forallb_forall in H. specialize (H _ Hb). simpl in H. unfold value_ok in H.
+  apply orb_true_iff in H. destruct H as [H|H].
+  - left. apply existsb_exists in H. destruct H as (a & Ha & He). destruct a; try discriminate. exact Ha.
+  - right. apply existsb_exists in H. destruct H as (cfg & Hc & Ha). unfold accepted_on in Ha.
+    destruct (dispatch (set_assoc key (OStr v) (fst cfg)) (snd cfg)) as [s|] eqn:E; [|discriminate].
+    exists cfg, s; split; [exact Hc|exact E].
+Qed.
+
+(* ------------------------------------------------------------------ what a literal setter writes *)
+
+(* final value of every key a body writes when run without a country row; None when the body is not a plain
+   sequence of literal writes (reads the row, rebinds the dictionary, writes time constants) *)
+Fixpoint final_writes (env acc : dict) (b : list stmt) : option dict :=
+  match b with
+  | [] => Some acc
+  | SWrite p k e :: b' =>
+    match eval None (acc ++ env)%list e with
+    | EvOk v => final_writes env (set_assoc (dkey p k) v acc) b'
+    | EvErr _ => None
+    end
+  | (STWrite _ _ | SNew | SSeaweedCols _ _ | SWriteIfRowEq _ _ _ _ _) :: _ => None
+  | _ :: b' => final_writes env acc b'
+  end.
+
+Definition chain_setter (fam v : string) : option setter :=
+  match find (fun st => match st with DChain k _ => String.eqb k fam | _ => false end) dispatch_steps with
+  | Some (DChain _ brs) =>
+    match lookup v brs with
+    | Some [DCall n] => find_setter n
+    | _ => None
+    end
+  | _ => None
+  end.
+
+Definition same_writes (spec got : dict) : bool :=
+  Nat.eqb (List.length spec) (List.length got) &&
+  forallb (fun kv => match lookup (fst kv) got with Some v => value_close 0 (snd kv) v | None => false end) spec.
+
+Definition doc_env : dict := [("NMONTHS", VNum 120); ("INITIAL_GLOBAL_CROP_AREA", VNum 1430000000); ("DELAY", VDict);
+                              ("ROTATION_IMPROVEMENTS", VDict)].
+Definition entry_holds (e : string * string * dict) : bool :=
+  match e with
+  | (fam, v, spec) =>
+    match chain_setter fam v with
+    | Some x => match final_writes doc_env [] (s_body x) with Some got => same_writes spec got | None => false end
+    | None => false
+    end
+  end.
